@@ -24,6 +24,10 @@
 (*                code boundaries 252/253, 505/506, 508/509, 761/762       *)
 (*          nc    glyphs of 127..300 contours (nContour / nPoints streams) *)
 (*          loca  rebuilt glyf of 131068 / 131070 / 131072 bytes           *)
+(*          cp    composite glyphs of 1..3 components: the POSITION of     *)
+(*                every per-component property varies (instruction flag on *)
+(*                every subset of the components, argument width and       *)
+(*                signedness, transform kind, the other flag bits)         *)
 (*   dir    table directory (+ collection directory) byte strings          *)
 (***************************************************************************)
 EXTENDS Woff2, Json, TLC, SequencesExt
@@ -264,6 +268,57 @@ LocaCase(d, l, b) ==
              [Bundles[b] EXCEPT !.loca = l], "single", 13)
 
 ---------------------------------------------------------------------------
+\* cp: composite glyphs of k = 1..3 components in which the POSITION of every per-component property varies.
+\*  - WE_HAVE_INSTRUCTIONS (bit 8) sits on the components named by the bit mask `pm` - every subset of 1..k,
+\*    i.e. on no component, on the last only (what font tools write), on the first only, on a middle one, on
+\*    several (WOFF2 5.1 step 3a: "if ANY of the component flags has FLAG_WE_HAVE_INSTRUCTIONS set");
+\*  - component j has style (salt + stride * (j - 1)) % 16 = argument mode (bytes/words x point numbers/xy:
+\*    2, 2, 4 or 4 argument bytes, unsigned or signed) + 4 * transform kind (none, scale, x/y scale, 2x2:
+\*    0, 1, 2, 4 F2Dot14 values); over salt = 0..15 every position takes every style, so that a variable-length
+\*    record sits before, between and after records of every other length;
+\*  - the remaining flag bits (ROUND_XY_TO_GRID, USE_MY_METRICS, OVERLAP_COMPOUND, SCALED_ / UNSCALED_COMPONENT_
+\*    OFFSET) rotate over the positions; MORE_COMPONENTS is set on exactly the non-last components;
+\*  - the instruction length is 0 for some hinted composites (bit set, zero bytes).
+\* The composite is followed by a simple glyph with instructions, a second hinted composite and a dot: a decoder
+\* that mis-reads the component list or the instruction bookkeeping misaligns the glyph / composite /
+\* instruction streams of everything after it.
+CpTrFlag == <<0, 8, 64, 128>>
+CpExtras == <<0, 4, 512, 1024, 2048, 4096, 1540, 0>>
+CpComp(j, k, s, inI, ex, salt) ==
+  LET words == s % 2 = 1  xy == (s \div 2) % 2 = 1  trk == s \div 4
+      \* argument values that need the full width and the right signedness of their mode
+      a == IF words THEN (IF xy THEN <<-300 - j, 1000 + salt>> ELSE <<300 + j, 40000 + salt>>)
+           ELSE (IF xy THEN <<-100 + j, 127 - salt>> ELSE <<200 + j, 3 + salt>>)
+  IN [flags |-> (s % 4) + CpTrFlag[trk + 1] + (IF j < k THEN 32 ELSE 0) + (IF inI THEN 256 ELSE 0) + ex,
+      gid |-> j % 2, a1 |-> a[1], a2 |-> a[2],
+      tr |-> CASE trk = 0 -> <<>>
+               [] trk = 1 -> <<8192 + j>>
+               [] trk = 2 -> <<-16384, 100 + salt>>
+               [] trk = 3 -> <<16384, -1 - j, 1 + salt, -16384>>]
+CpStyle(j, salt, stride) == (salt + stride * (j - 1)) % 16
+CpRec(k, pm, salt, stride) ==
+  LET ilen == IF pm = 0 \/ salt % 5 = 4 THEN 0 ELSE 3 + (salt % 3) IN
+  [kind |-> "composite", ends |-> <<>>, pts |-> <<>>, instr |-> [i \in 1 .. ilen |-> (17 * i + salt) % 256],
+   bbox |-> <<salt - 200, -100, 900, 800 + k>>,
+   comps |-> [j \in 1 .. k |-> CpComp(j, k, CpStyle(j, salt, stride), Bit(pm, j - 1) = 1,
+                                      Pick(CpExtras, salt + 3 * j), salt)]]
+CpStrides == IF Quick THEN {5} ELSE {0, 1, 3, 5, 7, 11, 13}
+\* <<"cp", k, pm, salt, stride>>
+CpInit == \E k \in 1 .. 3 : \E pm \in 0 .. (2 ^ k - 1) : \E salt \in 0 .. 15 : \E stride \in CpStrides :
+            c = <<"cp", k, pm, salt, stride>>
+CpCase(p) ==
+  LET k == p[2]  pm == p[3]  salt == p[4]  stride == p[5]
+      rec == CpRec(k, pm, salt, stride)
+      recs == <<GTri, GDot(3), rec, GTwo, GCompI, GDot(7)>>
+      mix == k + 3 * pm + 5 * salt + stride
+      bu == 1 + (mix % Len(Bundles))
+      hf == (mix \div 2) % 4
+      fc == FontCaseOf(<<"cp", k, pm, salt, stride>>, recs, 0, hf, Pick(<<6, 1, 5, 3>>, mix), Pick(LsbPolSeq(hf), mix \div 8),
+                       Bundles[bu], Pick(CollModes, mix \div 3), Pick(ZLens, mix))
+  IN [ok |-> fc.ok /\ CompInstrAnywhere(rec, [trip |-> Bundles[bu].trip, u16 |-> Bundles[bu].u16, bbox |-> Bundles[bu].bbox]),
+      json |-> fc.json]
+
+---------------------------------------------------------------------------
 \* dir: entry templates <<tag, explicit, ver, has transformLength>>
 TagNAME == KnownTags[6]
 TagZZZZ == <<90, 90, 90, 90>>
@@ -366,6 +421,7 @@ CaseResult(p) ==
     [] p[1] = "u16b"   -> U16bCase(p[2], p[3])
     [] p[1] = "nc"     -> NcCase(p[2])
     [] p[1] = "loca"   -> LocaCase(p[2], p[3], p[4])
+    [] p[1] = "cp"     -> CpCase(p)
 
 \* glyph sequences up to MaxLen; up to FullLen every bundle x collection mode, beyond that one of
 \* each chosen by a mix of the other parameters; beyond ThinLen also only one hmtx flag value
@@ -397,6 +453,7 @@ Init ==
      \/ c \in U16bCases
      \/ c \in {<<"nc", k>> : k \in NcCounts}
      \/ c \in LocaCases
+     \/ CpInit
      \/ c \in DirCases
 
 Next == ~done /\ done' = TRUE /\ c' = c
